@@ -8,6 +8,8 @@ reduction lists), utils/openpose.py, utils/openpose_135.py (component names, bod
 (component names, FLIPPED_BODY_POINTS, face point count; parsed, never imported - mediapipe is absent).
 Anything that does not have exactly the expected shape raises TranslateError (a broken tie)."""
 import ast
+import json
+import os
 import warnings
 
 from common import TranslateError
@@ -533,26 +535,57 @@ def generic_facts(openpose_body, openpose_names, openpose135_names):
 
 # ------------------------------------------------------------------------------------------------
 _CACHE = {}
+FALLBACK = os.path.join(os.path.dirname(os.path.abspath(__file__)), "c11_facts_fallback.json")
 
 
-def facts():
-    """all regenerated facts as Python values (also used by the harness to build format-shaped headers)"""
-    if "f" in _CACHE:
-        return _CACHE["f"]
-    pd = points_dims()
-    F = {"points_dims": pd,
-         "np_perms": get_points_perms("numpy/pose_body.py", "NumPyPoseBody", pd),
-         "torch_perms": get_points_perms("torch/pose_body.py", "TorchPoseBody", pd),
-         "tf_perms": get_points_perms("tensorflow/pose_body.py", "TensorflowPoseBody", pd)}
-    F["component_ctor"] = ctor_map("pose_header.py", "PoseHeaderComponent")
-    F["header_ctor"] = ctor_map("pose_header.py", "PoseHeader")
-    F["gc_component_args"], F["gc_header_args"], F["gc_pose_args"] = get_components_calls()
-    ob, on = openpose_facts()
-    o135 = component_names(parse("utils/openpose_135.py"), "openpose_135.py")
-    F["openpose_body_points"] = ob
-    F["flipped_body_points"], F["face_points_num"], F["holistic_components"] = holistic_facts()
-    F.update(generic_facts(ob, on, o135))
-    _CACHE["f"] = F
+def _sections():
+    def s_perms(F):
+        pd = points_dims()
+        F["points_dims"] = pd
+        F["np_perms"] = get_points_perms("numpy/pose_body.py", "NumPyPoseBody", pd)
+        F["torch_perms"] = get_points_perms("torch/pose_body.py", "TorchPoseBody", pd)
+        F["tf_perms"] = get_points_perms("tensorflow/pose_body.py", "TensorflowPoseBody", pd)
+
+    def s_ctors(F):
+        F["component_ctor"] = ctor_map("pose_header.py", "PoseHeaderComponent")
+        F["header_ctor"] = ctor_map("pose_header.py", "PoseHeader")
+        F["gc_component_args"], F["gc_header_args"], F["gc_pose_args"] = get_components_calls()
+
+    def s_tables(F):
+        ob, on = openpose_facts()
+        o135 = component_names(parse("utils/openpose_135.py"), "openpose_135.py")
+        F["openpose_body_points"] = ob
+        F["flipped_body_points"], F["face_points_num"], F["holistic_components"] = holistic_facts()
+        F.update(generic_facts(ob, on, o135))
+    return [s_perms, s_ctors, s_tables]
+
+
+def facts(strict=True):
+    """all regenerated facts as Python values (also used by the harness to build format-shaped headers and by its
+    oracle).  strict: raise TranslateError on the first unrecognised shape (a broken tie).  Not strict: sections that
+    cannot be translated are filled from the committed copy c11_facts_fallback.json, so that the failing-input search
+    can still run; the broken tie itself is reported by translate()."""
+    key = "strict" if strict else "lenient"
+    if key in _CACHE:
+        return _CACHE[key]
+    F, errors = {}, []
+    for sec in _sections():
+        G = {}
+        try:
+            sec(G)
+            F.update(G)
+        except TranslateError as e:
+            errors.append(e)
+        except Exception as e:                          # a crash of the translator is a broken tie as well
+            errors.append(TranslateError("translator crashed: %r" % (e,)))
+    if errors:
+        if strict:
+            raise errors[0]
+        fb = json.load(open(FALLBACK))
+        for k, v in fb.items():
+            F.setdefault(k, v)
+        F["_errors"] = [str(e) for e in errors]
+    _CACHE[key] = F
     return F
 
 
@@ -611,4 +644,8 @@ def gen():
 
 
 if __name__ == "__main__":
-    print(gen()["Gen_C11.v"])
+    import sys
+    if len(sys.argv) > 1 and sys.argv[1] == "--write-fallback":
+        json.dump(facts(), open(FALLBACK, "w"), indent=1, sort_keys=True)
+    else:
+        print(gen()["Gen_C11.v"])
